@@ -54,7 +54,20 @@ CIPHER_SETS = [
      'encryption_algs': ['3des-cbc'], 'mac_algs': ['hmac-sha2-256']},
 ]
 
-valid_plan = chanload.valid_plan
+def valid_plan(plan):
+    st = plan.get('stall')
+
+    if st is not None and (not 1 <= st['reads'] <= 5000 or
+                           not 0 < st['secs'] <= 1000):
+        return False
+
+    rk = plan.get('rekey') or {}
+
+    if rk.get('c_bytes', 1) < 1 or rk.get('s_bytes', 1) < 1 or \
+            rk.get('c_secs', 0) < 0 or rk.get('s_secs', 0) < 0:
+        return False
+
+    return chanload.valid_plan(plan)
 
 
 def gen_plan(rng):
@@ -80,6 +93,13 @@ def gen_plan(rng):
         plan['profile']['latency_ms'] = rng.choice([20, 300, 1500])
 
     plan['rekey'] = rk
+
+    if secs and rng.chance(60):
+        # the process stalls for longer than the re-exchange interval right
+        # before a drawn reading of the clock: the deadline may then pass
+        # between two readings that belong to one send
+        plan['stall'] = {'reads': rng.between(1, 600),
+                         'secs': 2 * max(rk['c_secs'], rk['s_secs'])}
     plan['profile']['max_iterations'] = 8000
     plan['algs'] = rng.choice(CIPHER_SETS)
     small = min(rk['c_bytes'], rk['s_bytes'])
@@ -121,9 +141,18 @@ def run_plan(plan, sched_seed=None, sched_replay=None):
     orig_send = _ac.SSHConnection.send_packet
     held = [0]
 
+    armed = [False]
+
     def send_packet(self, pkttype, *args, **kwargs):
         if pkttype >= 80 and not self._kex_complete and self._session_id:
             held[0] += 1
+
+        if plan.get('stall') and not armed[0] and self._auth_complete:
+            # (from the first packet of an authenticated connection on: a
+            # stall during login would just be a login timeout)
+            armed[0] = True
+            from simkit import seams
+            seams.set_stall(plan['stall']['reads'], plan['stall']['secs'])
 
         return orig_send(self, pkttype, *args, **kwargs)
 
